@@ -66,7 +66,7 @@ class VLoop(base_events.BaseEventLoop):
         self._inject = []
         self._seq = 0
         self._selector = _Selector(self)
-        self._clock_resolution = 1e-9
+        self._clock_resolution = 2.0 ** -10   # exact in binary, still far below one tick
         self.missed = []
         self.idle_hook = None
         self.exceptions = []
